@@ -109,6 +109,11 @@ impl StackS {
         requires size <= old(self).view.len()
         ensures final(self).view == old(self).view.take(size as int)
     { unimplemented!() }
+    #[verifier::external_body]
+    pub fn peek_mut(&mut self, depth: usize) -> (r: &mut Value)
+        requires depth < old(self).view.len()
+        ensures *r == old(self).view[old(self).view.len() - 1 - depth], final(self).view == old(self).view.update(old(self).view.len() - 1 - depth, *final(r))
+    { unimplemented!() }
 }
 
 pub uninterp spec fn u16_of(b0: u8, b1: u8) -> int;
@@ -255,6 +260,23 @@ impl Vm {
     //@  ensures final(self).fib.return_ip == old(self).fib.return_ip, final(self).fib.return_value == old(self).fib.return_value, final(self).fib.error_ip == old(self).fib.error_ip, final(self).fib.pending_exception == old(self).fib.pending_exception, final(self).fib.return_handler_count == old(self).fib.return_handler_count
     //@end
 
+    // the remaining operand-stack helpers every handler unit uses by contract (items, classes, hmap, fiberx, …)
+    //@fn file=yarel/src/vm.rs path=Vm::stack_size ret=r props=C02,C08
+    //@  ensures r == self.fib.stack.view.len()
+    //@end
+    //@fn file=yarel/src/vm.rs path=Vm::poke props=C02,C08
+    //@  requires depth < old(self).fib.stack.view.len()
+    //@  ensures @poke_overwrites_exactly_the_slot_at_that_depth final(self).fib.stack.view == old(self).fib.stack.view.update(old(self).fib.stack.view.len() - 1 - depth, value), final(self).code == old(self).code, final(self).fib.frames == old(self).fib.frames, final(self).fib.exc_handlers == old(self).fib.exc_handlers
+    //@  ensures final(self).ip == old(self).ip, final(self).handling_exception == old(self).handling_exception
+    //@  ensures final(self).fib.return_ip == old(self).fib.return_ip, final(self).fib.return_value == old(self).fib.return_value, final(self).fib.error_ip == old(self).fib.error_ip, final(self).fib.pending_exception == old(self).fib.pending_exception, final(self).fib.return_handler_count == old(self).fib.return_handler_count
+    //@end
+    //@fn file=yarel/src/vm.rs path=Vm::discard props=C02,C08
+    //@  requires num <= old(self).fib.stack.view.len()
+    //@  ensures @discard_drops_exactly_the_topmost_slots final(self).fib.stack.view == old(self).fib.stack.view.take(old(self).fib.stack.view.len() - num), final(self).code == old(self).code, final(self).fib.frames == old(self).fib.frames, final(self).fib.exc_handlers == old(self).fib.exc_handlers
+    //@  ensures final(self).ip == old(self).ip, final(self).handling_exception == old(self).handling_exception
+    //@  ensures final(self).fib.return_ip == old(self).fib.return_ip, final(self).fib.return_value == old(self).fib.return_value, final(self).fib.error_ip == old(self).fib.error_ip, final(self).fib.pending_exception == old(self).fib.pending_exception, final(self).fib.return_handler_count == old(self).fib.return_handler_count
+    //@end
+
     // PushExcHandler: the record notes where the catch code and the finally code start (relative operands) and the
     // current heights of both stacks.
     //@fn file=yarel/src/vm.rs path=Vm::push_exc_handler_impl
@@ -355,20 +377,6 @@ impl Vm {
     // Calling a native function (host-provided built-in): its error surfaces as a catchable value delivered to the
     // innermost handler; uncaught, the trace names the address of the call. A native that does not manage the stack
     // itself has its arguments removed and its result put in the callee slot.
-    #[verifier::external_body]
-    fn poke(&mut self, depth: usize, value: Value)
-        requires depth < old(self).fib.stack.view.len()
-        ensures final(self).fib.stack.view == old(self).fib.stack.view.update(old(self).fib.stack.view.len() - 1 - depth, value), final(self).fib.frames == old(self).fib.frames, final(self).fib.exc_handlers == old(self).fib.exc_handlers,
-            final(self).ip == old(self).ip, final(self).handling_exception == old(self).handling_exception, final(self).code == old(self).code,
-            final(self).fib.return_ip == old(self).fib.return_ip, final(self).fib.return_value == old(self).fib.return_value, final(self).fib.error_ip == old(self).fib.error_ip, final(self).fib.pending_exception == old(self).fib.pending_exception, final(self).fib.return_handler_count == old(self).fib.return_handler_count
-    { unimplemented!() }
-    #[verifier::external_body]
-    fn discard(&mut self, num: usize)
-        requires num <= old(self).fib.stack.view.len()
-        ensures final(self).fib.stack.view == old(self).fib.stack.view.take(old(self).fib.stack.view.len() - num), final(self).fib.frames == old(self).fib.frames, final(self).fib.exc_handlers == old(self).fib.exc_handlers,
-            final(self).ip == old(self).ip, final(self).handling_exception == old(self).handling_exception, final(self).code == old(self).code,
-            final(self).fib.return_ip == old(self).fib.return_ip, final(self).fib.return_value == old(self).fib.return_value, final(self).fib.error_ip == old(self).fib.error_ip, final(self).fib.pending_exception == old(self).fib.pending_exception, final(self).fib.return_handler_count == old(self).fib.return_handler_count
-    { unimplemented!() }
     // set_native_arity / take_native_arity: bookkeeping for Vm::native_arg (not part of this unit's state)
     #[verifier::external_body]
     fn note_native_arity(&mut self, n: Option<usize>) ensures *final(self) == *old(self) { unimplemented!() }
